@@ -28,6 +28,36 @@ CHECKS = {
  'C15': ("proptest over x in [-50,50] (0, below eps down to 1e-300, +-3 floats around eps and 1, small, moderate, large, both signs) on all 58 types over f32/f64 plus a deterministic sweep of the plain-float instances; re-expanded Taylor series / closed-form series-arithmetic reference; real-part-vs-plain-float and parity relations",
          "Stratified exploration with an independent reference (32*u*e, e from the well-conditioned evaluation, so the closed forms' 1/x^k amplification is not granted), agreement of the dual real part with the plain float implementation, parity with negated parts.",
          "reference validated against mpmath tables (ndv selftest)", "4-C15"),
+ 'C04': ("proptest-generated programs evaluated on pairs of library types that expose the same derivatives (612 distinct type pairs per quick run: same reference algebra, static vs dynamic, f32 vs f64, vector vs scalar per direction), inputs mapped through the embedding table; differential comparison of every shared part of every node",
+         "Pure differential oracle between library types (tolerance 2*32 u e, e from the reference run), plus each side against the reference; NDERIV of all 58 registered types enumerated exhaustively.",
+         "dimensions 0..6, nesting depth <= 3; partner types limited to the registry", "4-C04"),
+ 'C05': ("proptest-generated functions R^n -> R^m (shared expression DAG, m outputs) for all 20 drivers, static sizes {1,2,3,4,6}^2 and dynamic 0..6, generated index triples, failing closures with generated error values; reference partials from unit-seeded reference algebra",
+         "Exploration with an orientation-sensitive oracle: every component of every driver result is compared with the partial derivative read off the independently seeded reference algebra (non-symmetric functions, n != m), shapes checked, try_ variants compared bit for bit / error value propagated.",
+         "static sizes limited to {1,2,3,4,6}", "4-C05"),
+ 'C06': ("metamorphic proptest (same real inputs, two independent part assignments -> bit-identical real parts of every node), differential against the plain f32/f64 evaluation of the same program, bit-exact comparison of the plain-float instances with std, and generated pairs incl. equal/adjacent/+-0/inf/NaN real parts for all predicates, comparison operators and min/max/clamp",
+         "Metamorphic + differential exploration: finds any dependence of a real part on derivative parts, any comparison or predicate that looks at derivative parts, any float-instance method that deviates from std.",
+         "signum at exact zeros excluded (discontinuity)", "4-C06"),
+ 'C07': ("proptest programs and compound-assignment histories on all types with optional parts; ALL 2^k absent/explicit-zero representations (k<=6) enumerated per case and compared part by part on every node; direct calls of the 18 operator impls of the Derivative container against plain matrices",
+         "Exploration with per-case exhaustive enumeration of representations: numerical equality of every part of every node across representations, and agreement with the reference algebra.",
+         "k <= 6 marked zero blocks per case; finite values", "4-C07"),
+ 'C08': ("proptest over 15 form families (owned/borrowed/mixed/assign forms, scalar forms, inv, Sum/Product owned and borrowed incl. empty, mul_add, From<F>, 14 FromPrimitive constructors, Zero/One/16 FloatConst) on all 58 types via HRTB-generic instantiation; bit-for-bit equality between forms, base form against the reference algebra",
+         "Differential exploration between syntactic forms (bit-exact; multiplicative scalar forms 16 u) anchored to the reference algebra so that all forms being equally wrong cannot pass.",
+         "presence patterns of results are not compared (C07)", "4-C08"),
+ 'C11': ("proptest over 48 method groups of ComplexField/RealField/SimdValue on the 26 field-compatible instantiations; forwarders bit-equal to the generic dual operation, composed methods against the reference algebra, real parts against the same method on plain floats, selection methods return the selected operand's own parts; constants enumerated exhaustively",
+         "Differential exploration (dual op / plain float / reference algebra) of nalgebra's field contract incl. equal and adjacent real parts for selection and every presence pattern for the single-lane SIMD view.",
+         "floor/ceil/round/trunc/fract panic by design and are excluded", "4-C11"),
+ 'C12': ("proptest-generated matrices with known condition number / eigenvalue gaps (Givens products, row permutations of both parities) and exact singular constructions; validity predicates (A x = b, A A^-1 = I, Leibniz determinant, A V = V L, V^T V = I, ascending order) evaluated on the library output in the reference algebra with conditioning-scaled tolerances",
+         "Exploration with validity-predicate oracles in every derivative part for the crate's LU/Jacobi/norm (5 scalar types) and nalgebra's generic LU/inverse/determinant/symmetric_eigen (4 field types); singular matrices must be reported.",
+         "nalgebra's symmetric_eigen only checked to its calibrated accuracy (iteration truncated on the real part inside nalgebra: 1e7/1e9/1e12 u)", "4-C12"),
+ 'C13': ("proptest over the four convertible types x {f32,f64}^2 x static/dynamic dimensions 0..6 x presence patterns x special values (NaN, inf, non-f32-representable) incl. nested heap-allocated element types; round-trip / coherence oracles for SubsetOf/SupersetOf, nalgebra convert/try_convert/cast; counting-allocator leak oracle; same check under libFuzzer+ASan and Miri (thorough)",
+         "Exploration with exact oracles (per-part `as` conversion, presence kept, from_superset.is_some() == is_in_subset for every value) plus memory-safety evidence from a leak-counting allocator on every case, ASan/LSan fuzzing and Miri on a generated subset.",
+         "memory safety only as strong as the sanitizers on generated inputs; not a proof about the unsafe blocks", "4-C13"),
+ 'C16': ("proptest over 20 serializable scalar/nested types with arbitrary finite bit patterns; exact structural comparison of the serialized serde_json::Value with the documented fields, bit-exact round trip through Value and JSON text, metamorphic key-reordering and value-swapping",
+         "Round-trip and structure exploration: every part restored bit for bit, exactly the documented field names and nothing else, fields bound by name.",
+         "serde_json (float_roundtrip) is the only data format", "4-C16"),
+ 'C18': ("proptest over all 58 types with arbitrary finite bit patterns and presence patterns; Display output tokenised (numbers, symbol runs) and matched token by token against the sequence derived from the type structure; every number parsed back bit-exactly",
+         "Round-trip exploration of the textual rendering: no part dropped, duplicated, swapped, sign-flipped or altered; documented symbols in fixed order; absent parts omitted.",
+         "separators and the nalgebra matrix box are not part of the oracle", "4-C18"),
 }
 checks = []
 for i in ids:
